@@ -1607,6 +1607,14 @@ package mq
 //@   ensures result == nil && (p.flags & 4) != 0 ==> p.will != nil && p.will.QoS() == ((uint8(p.flags) >> 3) & 3)   #C03
 //@   ensures result == nil && (p.flags & 4) != 0 ==> p.will.Retain() == ((p.flags & 32) != 0)                      #C03
 
+// CONNECT payload (3.1.3.5, 3.1.3.6): without the user name / password flag the decoded packet has none (for a packet as
+// ReadPacket makes it). The positive direction (the strings at their place behind the client identifier) was tried in
+// three formulations and is not claimed: no solver decides those obligations on this function within the limit.
+//@ func (*Connect).UnmarshalBinary
+//@   let fresh0 = old(len(p.clientID)) == 0 && old(len(p.username)) == 0 && old(len(p.password)) == 0
+//@   ensures usr_none:: result == nil && fresh0 && (p.flags & 128) == 0 ==> len(p.username) == 0                                 #C03
+//@   ensures pwd_none:: result == nil && fresh0 && (p.flags & 64) == 0 ==> len(p.password) == 0                                  #C03
+
 // CONNECT: the fixed-position fields around its two property sections are not under contract (their
 // obligations did not discharge within the time limit); only the steps of the first property section are.
 
@@ -1954,3 +1962,112 @@ package mq
 //@     latch cur_x1f:: b.err == nil && id == 31 && (specU16(b.data[old(b.i)+1], b.data[old(b.i)+2]) != 0 || len(old(self.ReasonString())) == 0) ==> b.i == old(b.i) + 3 + int(specU16(b.data[old(b.i)+1], b.data[old(b.i)+2]))   #C03
 
 // END generated by /verif/gen_c03.py
+
+// ---------------------------------------------------------------- round trips (C01)
+// the real encoder followed by the real decoder (ghost functions rt* in spec_verif.go)
+
+//@ func rtBits
+//@   requires 0 <= i && i + 1 <= len(buf)
+//@   ensures result2 == nil && result0 == v && result1 == i + 1                                   #C01
+
+//@ func rtBool
+//@   requires 0 <= i && i + 1 <= len(buf)
+//@   ensures result2 == nil && result0 == v && result1 == i + 1                                   #C01
+
+//@ func rtU16
+//@   requires 0 <= i && i + 2 <= len(buf)
+//@   ensures result2 == nil && result0 == v && result1 == i + 2                                   #C01
+
+//@ func rtU32
+//@   requires 0 <= i && i + 4 <= len(buf)
+//@   ensures result2 == nil && result0 == v && result1 == i + 4                                   #C01
+
+//@ func rtVbint
+//@   requires 0 <= i && uint(v) <= 268435455 && i + specVbWidth(uint(v)) <= len(buf)
+//@   ensures result2 == nil && result0 == v && result1 == i + specVbWidth(uint(v))                #C01
+
+//@ func rtBindata
+//@   requires 0 <= i && len(v) <= 65535 && i + 2 + len(v) <= len(buf) && disjoint(v, buf)
+//@   ensures result2 == nil && len(result0) == len(v) && result1 == i + 2 + len(v)                #C01
+//@   ensures forall k in 0..len(v): result0[k] == v[k]                                            #C01
+
+//@ func rtRawdata
+//@   requires 0 <= i && 1 <= len(v) && i + len(v) <= len(buf) && disjoint(v, buf)
+//@   ensures result2 == nil && len(result0) == len(v) && result1 == i + len(v)                    #C01
+//@   ensures forall k in 0..len(v): result0[k] == v[k]                                            #C01
+
+//@ func rtUserProp
+//@   requires 0 <= i && len(v[0]) <= 65535 && len(v[1]) <= 65535 && i + 4 + len(v[0]) + len(v[1]) <= len(buf)
+//@   ensures result2 == nil && len(result0[0]) == len(v[0]) && len(result0[1]) == len(v[1]) && result1 == i + 4 + len(v[0]) + len(v[1])   #C01
+//@   ensures forall k in 0..len(v[0]): result0[0][k] == v[0][k]                                   #C01
+//@   ensures forall k in 0..len(v[1]): result0[1][k] == v[1][k]                                   #C01
+
+// length prefixes as integers (the Int / bit-vector bridge is crossed once, inside the leaf encoder)
+//@ func (wuint16).fill
+//@   ensures i + 2 <= len(data) ==> int(specU16(data[i], data[i+1])) == int(v)   #C01
+
+//@ func (bindata).fill
+//@   ensures len(v) <= 65535 && i + 2 + len(v) <= len(data) ==> int(specU16(data[i], data[i+1])) == len(v)   #C01
+
+//@ func (UserProp).fill
+//@   ensures k0 <= 65535 && k1 <= 65535 && i + 4 + k0 + k1 <= len(data) ==> int(specU16(data[i], data[i+1])) == k0 && int(specU16(data[i+2+k0], data[i+3+k0])) == k1   #C01
+
+//@ func (bindata).fillProp
+//@   ensures len(v) != 0 && len(v) <= 65535 && i + 3 + len(v) <= len(data) ==> int(specU16(data[i+1], data[i+2])) == len(v)   #C01
+
+// packets whose property section is empty: every field of the variable header comes back (rt* in spec_verif.go)
+
+//@ func rtPubAck
+//@   requires p != nil && q != nil && p != q && p.fixed == 64
+//@   requires q.packetID == 0 && q.reasonCode == 0 && len(q.reason) == 0 && len(q.UserProperties) == 0
+//@   requires len(p.reason) == 0 && len(p.UserProperties) == 0
+//@   ensures result == nil                                                                          #C01
+//@   ensures q.fixed == p.fixed && q.packetID == p.packetID && q.reasonCode == p.reasonCode         #C01
+//@   ensures len(q.reason) == 0 && len(q.UserProperties) == 0                                       #C01
+
+//@ func rtPubRec
+//@   requires p != nil && q != nil && p != q && p.fixed == 80
+//@   requires q.packetID == 0 && q.reasonCode == 0 && len(q.reason) == 0 && len(q.UserProperties) == 0
+//@   requires len(p.reason) == 0 && len(p.UserProperties) == 0
+//@   ensures result == nil                                                                          #C01
+//@   ensures q.fixed == p.fixed && q.packetID == p.packetID && q.reasonCode == p.reasonCode         #C01
+//@   ensures len(q.reason) == 0 && len(q.UserProperties) == 0                                       #C01
+
+//@ func rtPubRel
+//@   requires p != nil && q != nil && p != q && p.fixed == 98
+//@   requires q.packetID == 0 && q.reasonCode == 0 && len(q.reason) == 0 && len(q.UserProperties) == 0
+//@   requires len(p.reason) == 0 && len(p.UserProperties) == 0
+//@   ensures result == nil                                                                          #C01
+//@   ensures q.fixed == p.fixed && q.packetID == p.packetID && q.reasonCode == p.reasonCode         #C01
+//@   ensures len(q.reason) == 0 && len(q.UserProperties) == 0                                       #C01
+
+//@ func rtPubComp
+//@   requires p != nil && q != nil && p != q && p.fixed == 112
+//@   requires q.packetID == 0 && q.reasonCode == 0 && len(q.reason) == 0 && len(q.UserProperties) == 0
+//@   requires len(p.reason) == 0 && len(p.UserProperties) == 0
+//@   ensures result == nil                                                                          #C01
+//@   ensures q.fixed == p.fixed && q.packetID == p.packetID && q.reasonCode == p.reasonCode         #C01
+//@   ensures len(q.reason) == 0 && len(q.UserProperties) == 0                                       #C01
+
+//@ func rtConnAck
+//@   requires p != nil && q != nil && p != q && p.fixed == 32
+//@   requires p.receiveMax == 0 && p.sessionExpiryInterval == 0 && p.maxQoS == 0 && !p.retainAvailable && p.maxPacketSize == 0 && len(p.assignedClientID) == 0 && p.topicAliasMax == 0 && len(p.reasonString) == 0
+//@   requires !p.wildcardSubAvailable && !p.subIdentifiersAvailable && !p.sharedSubAvailable && p.serverKeepAlive == 0 && len(p.responseInformation) == 0 && len(p.serverReference) == 0 && len(p.authMethod) == 0 && len(p.authData) == 0 && len(p.UserProperties) == 0
+//@   requires q.flags == 0 && q.reasonCode == 0 && len(q.UserProperties) == 0
+//@   ensures result == nil                                                                          #C01
+//@   ensures q.fixed == p.fixed && q.flags == p.flags && q.reasonCode == p.reasonCode               #C01
+//@   ensures len(q.UserProperties) == 0                                                             #C01
+
+//@ func rtDisconnect
+//@   requires p != nil && q != nil && p != q && p.fixed == 224
+//@   requires len(p.UserProperties) == 0
+//@   requires q.reasonCode == 0 && len(q.UserProperties) == 0
+//@   ensures result == nil                                                                          #C01
+//@   ensures q.fixed == p.fixed && q.reasonCode == p.reasonCode && len(q.UserProperties) == 0       #C01
+
+//@ func rtAuth
+//@   requires p != nil && q != nil && p != q && p.fixed == 240
+//@   requires len(p.authMethod) == 0 && len(p.authData) == 0 && len(p.reasonString) == 0 && len(p.UserProperties) == 0
+//@   requires q.reasonCode == 0 && len(q.UserProperties) == 0
+//@   ensures result == nil                                                                          #C01
+//@   ensures q.fixed == p.fixed && q.reasonCode == p.reasonCode && len(q.UserProperties) == 0       #C01
